@@ -41,7 +41,7 @@ CLAIM = {
             "proved; interruption points are exhaustive per program, programs are sampled; trusted: probe components, "
             "canonicaliser, sub-process orchestration",
 }
-RULE = ("resume: generated programs (2-6 minimum steps quick / 2-12 thorough; every third one forced to contain the "
+RULE = ("resume: corpus first (a rich program and the repository's example models disease_model and boids); then generated programs (2-6 minimum steps quick / 2-12 thorough; every third one forced to contain the "
         "RESIDUAL_CHOICE keeper + triggered state machine + CRN + observers, every third one per-simulant clocks + births + "
         "snoozing + mortality, every third one mortality + observers + lookup tables + state machine + births) x ALL step boundaries k = 0..n, each resumed in "
         "its own fresh interpreter; distinct = distinct (program, k); one evaluation = one program with all its boundaries")
@@ -55,8 +55,9 @@ ASSUMPTIONS = [
 TRUSTED = [
     "probe component library harness/probes.py (importable by module path, so dill pickles the classes by reference) and "
     "the worker harness/probes_worker.py",
-    "component instances of a restored context are read from its component manager (private attribute, read defensively) "
-    "only to fetch the probes' logs; per-step observation under run() uses an instance attribute `step` set by the harness",
+    "component instances of a restored context are looked up by capability (any attribute of the context offering the "
+    "public list_components()), never by a private attribute name, and only to fetch the probes' logs (when none is found "
+    "the schedule correspondence is skipped, the digests still decide); per-step observation under run() uses an instance attribute `step` set by the harness",
 ]
 LEVEL_NOTE = ("PARTIAL: the verdict rests on the exhaustive-per-program interruption differential (programs sampled); the Coq "
               "theorems only pin down WHAT must survive pickling (the schedule state) and that nothing else is read by the "
@@ -66,6 +67,7 @@ _INNER = concurrent.futures.ThreadPoolExecutor(max_workers=int(os.environ.get("V
 _OUTER = concurrent.futures.ThreadPoolExecutor(max_workers=3)
 _PENDING = {}
 _COUNTER = [0]
+_LAST_FAIL = {}          # program -> first failing interruption point (guides shrink)
 POLLUTE = ["none", "seed", "consume", "both"]
 
 
@@ -97,11 +99,14 @@ def execute(case):
         n = len(a["reference"]["digests"])
         futs = []
         for k in range(n + 1):
+            if case.get("only_k") is not None and k not in case["only_k"]:
+                futs.append(None)              # a minimised replay: only the named interruption points
+                continue
             env = {"driver": "run" if k % 2 == 0 else "manual", "pollute": case.get("pollute", "none"),
                    "churn": (k % 3) + 1}            # heap churn in the resuming process (none in the reference run)
             job = {"mode": "resume", "program": case["program"], "path": os.path.join(tmp, f"{k}.pkl"), "env": env}
             futs.append(_INNER.submit(probes.spawn_worker, job, case["hashseed"] + 1 + k))
-        return a, [f.result() for f in futs]
+        return a, [f.result() if f is not None else None for f in futs]
     finally:
         shutil.rmtree(tmp, ignore_errors=True)
 
@@ -123,12 +128,15 @@ def run_case(case):
             ok = False
             msg = f"interruption point k={k}: {why}"
             obs.update(k=k, why=why)
+            _LAST_FAIL[json.dumps(program, sort_keys=True)] = k
 
     if (wb["digests"], wb["final"], wb["results"]) != (ref["digests"], ref["final"], ref["results"]):
         fail(-1, "the run that writes backups differs from the run that does not (write_backup disturbs the simulation)")
     boundary = [ref["init"]] + ref["digests"]
     lits = []
     for k, r in enumerate(resumed):
+        if r is None:
+            continue
         if "out" not in r:
             fail(k, f"restoring/continuing raised {r.get('error')} {r.get('tb', '')[-700:]}")
             continue
@@ -151,7 +159,7 @@ def run_case(case):
             clock_k = wb["clock0"] if k == 0 else wb["clocks"][k - 1]
             rows_k = wb["rows0"] if k == 0 else wb["rows"][k - 1]
             lit, why_not = probes.sched_case(program, 0, clock_k, rows_k, o["trace"], o["actions"], o["rows"], o["clocks"],
-                                             first_step=k)
+                                             first_step=k, with_init=(k == 0))
             if lit is not None:
                 lits.append(lit)
             else:
@@ -159,6 +167,22 @@ def run_case(case):
     coq = "[" + ";\n   ".join(lits) + "]" if lits else None
     tags = probes.program_tags(program) + (f"boundaries:{min(n + 1, 13)}",)
     return Result(ok=ok, msg=msg, coq=coq, key=[_key(program), n + 1] if n else None, obs=obs, tags=tags)
+
+
+def shrink_case(case):
+    """Variants for core's greedy minimiser: only the failing interruption point; no pollution; then the smaller programs of
+    props.c01.shrink_program (fewer steps - but not below the failing boundary -, fewer simulants, fewer components)."""
+    import copy
+    from props.c01 import shrink_program
+    k = _LAST_FAIL.get(json.dumps(case["program"], sort_keys=True))
+    if k is not None and k >= 0 and case.get("only_k") is None:
+        yield dict(copy.deepcopy(case), only_k=[k])
+    if case.get("pollute", "none") != "none":
+        yield dict(copy.deepcopy(case), pollute="none")
+    for q in shrink_program(case["program"]):
+        c = dict(copy.deepcopy(case), program=q)
+        c.pop("only_k", None)                  # boundaries move when the program changes: search them all again
+        yield c
 
 
 def corpus():
@@ -175,5 +199,5 @@ def corpus():
 
 def streams(tier):
     return [Stream(name="resume", imports="From Viv Require Import Common Sim.", check="check_scheds",
-                   gen=gen_case_factory(tier), run=run_case, n_quick=4, n_thorough=36, corpus=corpus,
+                   gen=gen_case_factory(tier), run=run_case, n_quick=4, n_thorough=36, corpus=corpus, shrink=shrink_case,
                    doc="every step boundary: backup, fresh interpreter, continue, compare")]
